@@ -25,6 +25,7 @@ SPAN_CORPUS = [
     "def x := 1\r\ndef y := 2\r\n",
     "a <<= 2 >>= 3 ::= 4 ..= 5 != 6 <= 7 >= 8 -> 9 => 10 // 11 ^= 12\n",
     "def a := 1<<22 >>3 << 4\ndef b := a>>1\n",
+    "def s := \"\u00e9\u00e9\u00e9\" + zzz  # caf\u00e9\ndef t := \"a\n\u00fc {s} b\" + s\n",
 ]
 
 
